@@ -188,6 +188,13 @@ static void fd_set_ofd(struct sk_proc *p, int fd, int ofd, int cloexec, int owne
   K->ofd[ofd].ref++;
 }
 
+/* harness: make descriptor newfd of process pi another name for the open file description behind oldfd (as dup2 would) */
+void sk_dup_to(int pi, int oldfd, int newfd, int cloexec, int owner)
+{
+  struct sk_proc *p = &K->proc[pi];
+  if (p->fd[oldfd].ofd >= 0 && p->fd[newfd].ofd < 0) fd_set_ofd(p, newfd, p->fd[oldfd].ofd, cloexec, owner);
+}
+
 static void fd_close(struct sk_proc *p, int fd)
 {
   int o = p->fd[fd].ofd;
@@ -223,8 +230,16 @@ void sk_fs_add(const char *path, int flags)
   K->fs[K->nfs].flags = flags;
   K->nfs++;
 }
-static int fs_lookup(const char *path)
+static int fs_lookup(const char *path0)
 {
+  /* a relative name with a directory part is resolved against the working directory of the process that uses it
+     (a bare name is looked up as it is: PATH search is not modelled) */
+  char joined[8300];
+  const char *path = path0;
+  if (path0[0] != '/' && strchr(path0, '/') && K->cwdlen_override == 0) {
+    const char *cwd = K->str + ME->cwd;
+    if (strlen(cwd) + strlen(path0) + 2 < sizeof joined) { snprintf(joined, sizeof joined, "%s%s%s", cwd, strcmp(cwd, "/") ? "/" : "", path0); path = joined; }
+  }
   for (int i = 0; i < K->nfs; i++) if (strcmp(K->str + K->fs[i].path, path) == 0) return K->fs[i].flags;
   /* FS_SUFFIX entries match any path that ends with them (used with synthetic, very long working directories) */
   size_t pl = strlen(path);
@@ -397,6 +412,8 @@ int __wrap_pipe2(int pair[2], int flags)
   return 0;
 }
 
+/* the process's own descriptor directory opened as a plain descriptor (see __wrap_open) */
+static struct { int used, proc, fd, n, pos; int ents[SK_MAXFD + 2]; } rawdir[4];
 int __wrap_close(int fd)
 {
   int e = fault(FK_CLOSE);
@@ -409,6 +426,7 @@ int __wrap_close(int fd)
   }
   if (K->in_api && sk_cur == 0 && p->fd[fd].owner == 0) sk_mon(MON_CLOSE_FOREIGN, fd, 0);
   sk_logev(LK_CLOSE, fd, K->ofd[p->fd[fd].ofd].obj, 0, 0);
+  for (int i = 0; i < 4; i++) if (rawdir[i].used && rawdir[i].proc == sk_cur && rawdir[i].fd == fd) rawdir[i].used = 0;
   fd_close(p, fd);
   if (e) { errno = e; return -1; } /* Linux: the descriptor is released even when close() fails */
   return 0;
@@ -566,6 +584,8 @@ int __wrap_fcntl(int fd, int cmd, ...)
   return -1;
 }
 
+/* the process's own descriptor directory opened as a plain descriptor (open + getdents64), per real process */
+static int is_fd_dir(const char *path) { return !strcmp(path, "/proc/self/fd") || !strcmp(path, "/dev/fd") || !strcmp(path, "/proc/self/fd/") || !strcmp(path, "/dev/fd/"); }
 int __wrap_open(const char *path, int flags, ...)
 {
   int e = fault(FK_OPEN);
@@ -573,6 +593,20 @@ int __wrap_open(const char *path, int flags, ...)
   struct sk_proc *p = ME;
   int obj;
   int acc = (flags & O_ACCMODE) == O_RDONLY ? 0 : (flags & O_ACCMODE) == O_WRONLY ? 1 : 2;
+  if (is_fd_dir(path)) {
+    int slot = -1;
+    for (int i = 0; i < 4; i++) if (!rawdir[i].used) { slot = i; break; }
+    int dfd = lowest_free(p, 0);
+    if (slot < 0 || dfd < 0) { errno = EMFILE; return -1; }
+    obj = sk_new_obj(OK_FILE, 0);
+    K->obj[obj].pathid = sk_str(path);
+    sk_install(sk_cur, dfd, obj, 0, (flags & O_CLOEXEC) ? 1 : 0, K->in_api);
+    rawdir[slot].used = 1; rawdir[slot].proc = sk_cur; rawdir[slot].fd = dfd; rawdir[slot].n = 0; rawdir[slot].pos = 0;
+    rawdir[slot].ents[rawdir[slot].n++] = -1; rawdir[slot].ents[rawdir[slot].n++] = -2;   /* "." and ".." */
+    for (int i = 0; i < SK_MAXFD; i++) if (p->fd[i].ofd >= 0) rawdir[slot].ents[rawdir[slot].n++] = i;
+    sk_logev(LK_OPEN, dfd, obj, 0, dfd);
+    return dfd;
+  }
   if (strcmp(path, "/dev/null") == 0) {
     obj = sk_new_obj(OK_NULL, 0);
   } else {
@@ -591,6 +625,43 @@ int __wrap_open(const char *path, int flags, ...)
   return fd;
 }
 int __wrap_open64(const char *path, int flags, ...) { return __wrap_open(path, flags, 0); }
+
+/* getdents64 on such a descriptor: whole records only, as many as fit (struct linux_dirent64 layout) */
+static long sk_getdents64(int fd, void *buf, size_t size)
+{
+  for (int i = 0; i < 4; i++) if (rawdir[i].used && rawdir[i].proc == sk_cur && rawdir[i].fd == fd) {
+    if (ME->fd[fd].ofd < 0) { rawdir[i].used = 0; break; }
+    size_t off = 0;
+    while (rawdir[i].pos < rawdir[i].n) {
+      char name[16]; int v = rawdir[i].ents[rawdir[i].pos];
+      if (v == -1) strcpy(name, "."); else if (v == -2) strcpy(name, ".."); else snprintf(name, sizeof name, "%d", v);
+      size_t reclen = (19 + strlen(name) + 1 + 7) & ~(size_t) 7;
+      if (off + reclen > size) break;
+      unsigned char *r = (unsigned char *) buf + off;
+      memset(r, 0, reclen);
+      uint64_t ino = (uint64_t) (1000 + v); int64_t doff = rawdir[i].pos + 1; uint16_t rl = (uint16_t) reclen;
+      memcpy(r, &ino, 8); memcpy(r + 8, &doff, 8); memcpy(r + 16, &rl, 2); r[18] = v < 0 ? 4 /* DT_DIR */ : 10 /* DT_LNK */;
+      strcpy((char *) r + 19, name);
+      off += reclen; rawdir[i].pos++;
+    }
+    if (off == 0 && rawdir[i].pos < rawdir[i].n) { errno = EINVAL; return -1; }
+    return (long) off;
+  }
+  errno = EBADF; return -1;
+}
+extern long __real_syscall(long n, ...);
+#include <sys/syscall.h>
+#include <stdarg.h>
+long __wrap_syscall(long n, ...)
+{
+  va_list ap; va_start(ap, n);
+  long a1 = va_arg(ap, long), a2 = va_arg(ap, long), a3 = va_arg(ap, long), a4 = va_arg(ap, long), a5 = va_arg(ap, long), a6 = va_arg(ap, long);
+  va_end(ap);
+  if (K && n == SYS_getdents64) return sk_getdents64((int) a1, (void *) a2, (size_t) a3);
+  if (K && K->in_api) { sk_mon(MON_UNSUPPORTED, LK_OTHER, (int) n); errno = ENOSYS; return -1; }
+  return __real_syscall(n, a1, a2, a3, a4, a5, a6);
+}
+ssize_t __wrap_getdents64(int fd, void *buf, size_t size) { return (ssize_t) sk_getdents64(fd, buf, size); }
 
 int __wrap_dup(int fd)
 {
